@@ -252,6 +252,14 @@ class C09Monitor(jobsim.Monitor):
                 # clamped state, Newton may settle on another stable equilibrium of this (not
                 # polyconvex) material; the homogeneous path from the undeformed state stays checked
                 raise Discard("other-equilibrium-of-svk-from-distorted-start")
+        if d > (2e-6 * slack) * scale + 1e-10 and doc.get("c09", {}).get("release_clamp"):
+            # started from the strongly non-homogeneous clamped state with a large step, Newton can settle
+            # on a configuration with inverted cells (det F <= 0; the volumetric terms of these energies
+            # are finite there): outside the admissible deformations the uniqueness of the homogeneous
+            # solution is not given - not judged (found by `vp check` with VERIF_SEED=1, Yeoh, linear triangles)
+            Fq = defgrad(w, rec["x"])
+            if np.linalg.det(np.moveaxis(Fq, (0, 1), (-2, -1))).min() <= 0:
+                raise Discard("inverted-equilibrium-from-clamped-start")
         if d > (2e-6 * slack) * scale + 1e-10:
             self.V("affine-field", f"substep ({j},{i}): displacement field differs from the affine map by {d:.3e} (scale {scale:.3e}, {fam}, {case})", site=f"field[{w.mesh.cell_type}]", fault=fk)
         self.log.count("affine-field-checked")
